@@ -3,6 +3,7 @@ five stored (already encoded) parts, class U; every specification is a function 
 parts and the arguments only, which is itself part of C08 (results are functions of the
 arguments)."""
 from . import spec_parse
+from .spec_path import normalize_path
 from .prims import CUT, hash_parts
 
 DEFAULT_PORTS = {"http": 80, "https": 443, "ws": 80, "wss": 443, "ftp": 21}   # C17
@@ -345,12 +346,6 @@ def encode_host_ensures(host, validate_host, result):
              and not ("]" in result[:-1]) and len(result) >= 2)
             or (not br and not (":" in result) and not ("@" in result) and not ("[" in result) and not ("]" in result)
                 and (result != "" or host == "")))
-
-
-def normalize_path(path):
-    """dot-segment removal (C15) -- specified separately; assumed contract of yarl._path.normalize_path"""
-    from yarl._path import normalize_path as real
-    return real(path)
 
 
 def encode_url(url_str):
